@@ -62,3 +62,32 @@ def order_1block(deps0: List[int], v0: int) -> bool:
     post: _
     """
     return _judge([0], [deps0], [v0])
+
+
+def _through_executor(blocks):
+    "the lines the real ATLAS executor hands to the job-options template"
+    from func_adl_xAOD.atlas.xaod.executor import atlas_xaod_executor
+    e = atlas_xaod_executor()
+    e._job_option_blocks = list(blocks)
+    return e.add_to_replacement_dict()["job_option_additions"]
+
+
+def shared_lines_all_kept(x: str, y: str, z: str, dep: bool) -> bool:
+    """
+    pre: len(x) <= 2 and len(y) <= 2 and len(z) <= 2
+    post: _
+    """
+    # two DIFFERENT blocks that share lines (boilerplate), one of them repeating a line: every line of every block, contiguous, in order
+    one = JobScriptSpecification(name="one", script=[x, y, x], depends_on=[])
+    two = JobScriptSpecification(name="two", script=[x, z, y], depends_on=["one"] if dep else [])
+    got = _through_executor([two, one] if dep else [one, two])
+    return got == [x, y, x, x, z, y] and generate_script_block([one, two]) == [x, y, x, x, z, y]
+
+
+def executor_passes_order_through(v0: int, v1: int, d01: bool) -> bool:
+    """
+    pre: 0 <= v0 <= 1 and 0 <= v1 <= 1
+    post: _
+    """
+    blocks = _mk([1, 0], [[0] if d01 else [], []], [v1, v0])
+    return _through_executor(blocks) == generate_script_block(blocks)
